@@ -220,17 +220,25 @@ def check_feed(ctx):
     for meth in ("TheJoker.marginal_ln_likelihood", "TheJoker.rejection_sample", "TheJoker.iterative_rejection_sample"):
         fn = ctx.prog.func(TJ, meth, R)
         packs = [c for c in A.calls_in(fn) if A.last_attr(c) == "pack"]
+        # the method's helper: the object built by self._make_joker_helper(data) (whatever the local is called)
+        HX = canon(parse("self._make_joker_helper(data)"))
+
+        def is_helper(e, at):
+            return canon(A.inline_temporaries(e, at, fn)) == HX
         for c in packs:
             n += 1
             un = A.get_arg(c, 0, "units")
             nm = A.get_arg(c, 1, "names")
-            ok = un is not None and nm is not None and canon(un) == "joker_helper.internal_units" and canon(nm) == "joker_helper.packed_order"
+            at_ = A.enclosing_stmt(c)
+            ok = un is not None and nm is not None and isinstance(un, ast.Attribute) and un.attr == "internal_units" and is_helper(un.value, at_) \
+                and isinstance(nm, ast.Attribute) and nm.attr == "packed_order" and is_helper(nm.value, at_)
             ctx.check(R, c, "%s packs in the helper's internal units and packed order" % meth, ok, "pack(units=%s, names=%s)" % (A.unparse(un) if un is not None else None, A.unparse(nm) if nm is not None else None), key=meth + ":pack")
         # the helper handed on is that same helper
         for c in A.calls_in(fn):
             if A.last_attr(c) in ("marginal_ln_likelihood_inmem", "marginal_ln_likelihood_helper", "rejection_sample_inmem", "rejection_sample_helper", "iterative_rejection_inmem", "iterative_rejection_helper"):
                 n += 1
-                ctx.check(R, c, "%s hands its own helper to %s" % (meth, A.last_attr(c)), canon(c.args[0]) == "joker_helper", "first argument `%s`" % A.unparse(c.args[0]), key="%s:%s" % (meth, A.last_attr(c)), nontrivial=False)
+                a0 = A.get_arg(c, 0, "joker_helper")
+                ctx.check(R, c, "%s hands its own helper to %s" % (meth, A.last_attr(c)), a0 is not None and is_helper(a0, A.enclosing_stmt(c)), "first argument `%s`" % (A.unparse(a0) if a0 is not None else None), key="%s:%s" % (meth, A.last_attr(c)), nontrivial=False)
         ctx.check(R, fn, "%s packs JokerSamples on the in-memory path" % meth, len(packs) == 1, "found %d pack calls" % len(packs), key=meth + ":packs", nontrivial=False)
     # the kernel's own order table
     K = _kernel.Kernel(ctx.prog)
